@@ -91,7 +91,7 @@ func (r *pedRun) fail(w, format string, args ...any) {
 
 var pedDealFaults = []string{"absent", "bad-share", "bad-share", "bad-cipher", "wrong-holder-index", "wrong-coeff-count", "wrong-nonce", "duplicate-bundle", "conflicting-bundles", "honest-deal"}
 var pedRespFaults = []string{"honest", "honest", "false-complaint", "success-in-regular-mode", "unknown-dealer", "wrong-nonce", "absent", "duplicate-bundle"}
-var pedJustFaults = []string{"honest", "none", "wrong-share", "unknown-holder", "wrong-nonce", "duplicate-bundle"}
+var pedJustFaults = []string{"honest", "honest", "honest", "none", "wrong-share", "unknown-holder", "wrong-nonce", "duplicate-bundle"}
 
 func (r *pedRun) cfg(n *pnode) *dkg.Config {
 	c := &dkg.Config{
@@ -158,10 +158,39 @@ func (r *pedRun) run() {
 		case "honest-deal":
 			deals = append(deals, b)
 		case "bad-share", "bad-cipher":
-			// the share of some honest victims is wrong
+			// the share of some honest victims is wrong: each with probability 1/2, or exactly t / t-1 /
+			// all of them (the eviction rule "t complaints" is a boundary every node must see alike)
+			vmode := rapid.SampledFrom([]string{"coin", "coin", "exactly-t", "t-1", "all"}).Draw(t, "victims."+n.name)
+			var cand []int
+			for k := range b.Deals {
+				if h := r.byNew(int(b.Deals[k].ShareIndex)); h != nil && h.byz == "" {
+					cand = append(cand, k)
+				}
+			}
+			chosen := map[int]bool{}
+			if vmode != "coin" && len(cand) > 0 {
+				want := len(cand)
+				switch vmode {
+				case "exactly-t":
+					want = min(int(r.newT), len(cand))
+				case "t-1":
+					want = min(int(r.newT)-1, len(cand))
+				}
+				for _, p := range rapid.Permutation(seqInts(len(cand))).Draw(t, "victimperm."+n.name)[:want] {
+					chosen[cand[p]] = true
+				}
+				r.log("%s: %d victims (%s)", n.name, want, vmode)
+			}
 			for k := range b.Deals {
 				h := r.byNew(int(b.Deals[k].ShareIndex))
-				if h == nil || h.byz != "" || !rapid.Bool().Draw(t, fmt.Sprintf("victim.%s.%d", n.name, k)) {
+				if h == nil || h.byz != "" {
+					continue
+				}
+				if vmode == "coin" {
+					if !rapid.Bool().Draw(t, fmt.Sprintf("victim.%s.%d", n.name, k)) {
+						continue
+					}
+				} else if !chosen[k] {
 					continue
 				}
 				if fault == "bad-cipher" {
